@@ -10,7 +10,6 @@ verus! {
 //@include prelude/provider.rs
 //@include prelude/readexact.rs
 
-/*@type file=src/eeprom/mod.rs name=EepromRange subst="<P>=>@@P=>Prov" @*/
 /*@type file=src/subdevice/eeprom.rs name=SubDeviceEeprom subst="<P>=>@@P=>Prov" @*/
 /*@const file=src/eeprom/device_provider.rs name=SII_FIRST_CATEGORY_START @*/
 
@@ -34,38 +33,9 @@ pub fn u16_from_le_bytes(b: [u8; 2]) -> (r: u16)
     ensures r as int == b[0] as int + 256 * (b[1] as int)
 { u16::from_le_bytes(b) }
 
+//@include prelude/eeprom_range_impl.rs
+
 impl EepromRange {
-    pub open spec fn wf(&self) -> bool { self.reader.wf() }
-
-    // contract proved in unit eeprom_range (same text, same source)
-    #[verifier::external_body]
-    pub fn new(reader: Prov, start_word: u16, len_words: u16) -> (r: Self)
-        requires reader.wf()
-        ensures
-            r.reader == reader,
-            r.byte_pos as int == (if 2 * start_word > 0xffff { 0xffff } else { 2 * start_word }),
-            r.end as int == (if r.byte_pos + 2 * len_words > 0xffff { 0xffff } else { r.byte_pos + 2 * len_words }),
-    { unimplemented!() }
-
-    // contract proved in unit eeprom_range
-    #[verifier::external_body]
-    pub async fn read(&mut self, buf: &mut [u8]) -> (r: Result<usize, Error>)
-        requires old(self).wf()
-        ensures
-            final(self).wf(),
-            final(self).reader.mem_eq(&old(self).reader),
-            final(self).end == old(self).end,
-            final(buf)@.len() == old(buf)@.len(),
-            r is Ok ==> ({
-                let n = r->Ok_0 as int;
-                let avail = if old(self).end > old(self).byte_pos { old(self).end - old(self).byte_pos } else { 0 };
-                &&& n == (if old(buf)@.len() < avail { old(buf)@.len() as int } else { avail })
-                &&& final(self).byte_pos as int == old(self).byte_pos + n
-                &&& forall|i: int| 0 <= i < n ==> final(buf)@[i] == old(self).reader.byte(old(self).byte_pos + i)
-                &&& forall|i: int| n <= i < old(buf)@.len() ==> final(buf)@[i] == old(buf)@[i]
-            }),
-    { unimplemented!() }
-
 /*@fn file=~/.cargo/registry/src/*/embedded-io-async-0.6.1/src/lib.rs impl="pub trait Read: ErrorType" name=read_exact subst="Self::Error=>Error" props=C12,C13,C14 attr="#[verifier::loop_isolation(false)] #[verifier::allow_complex_invariants]"
     requires old(self).wf()
     ensures
